@@ -904,6 +904,8 @@ MODULES = {"Consts": gen_consts, "Serial": gen_serial, "Classify": gen_classify}
 def load_extra():
     """per-property generator plugins: tools/gen_*.py exposing MODULES dict name -> fn(Module-class helpers)"""
     import importlib.util
+    # plugins do `import rs2v`: make that the very module that is running as a script
+    sys.modules.setdefault("rs2v", sys.modules[__name__])
     here = os.path.dirname(os.path.abspath(__file__))
     for fn in sorted(os.listdir(here)):
         if fn.startswith("gen_") and fn.endswith(".py"):
@@ -928,7 +930,7 @@ def main():
             mod = fn()
             text = mod.text()
             status[name] = {"ok": True, "items": mod.manifest}
-        except Untranslatable as e:
+        except Exception as e:  # Untranslatable (possibly a plugin's own class) or a plugin crash: the tie is broken, never guessed
             status[name] = {"ok": False, "error": str(e)}
             text = "(* GENERATED: translation FAILED: %s *)\nFail Definition untranslatable := 0.\nDefinition rs2v_failed : True := I I.\n" % str(e).replace("*)", "* )")
             rc = 2
